@@ -13,6 +13,7 @@ CLAIMED = {
  'C05': 'checksum kernels (sum_range, do_checksum, IPv4 pseudo-header, crc32) against RFC 1071 / IEEE 802.3 references for every buffer of each length in the bound; the per-layer serializers that use them are not encoded yet',
  'C06': 'RFC 1982 comparison kernel (seq_compare) for all 2^64 pairs: sign, antisymmetry, shift invariance; plus TCPIP::DataTracker on the real std::map/std::vector for k=2 segments of every shape inside a 3-byte window at initial sequence numbers bracketing the wrap point, stream bytes symbolic; the legacy TCPStream and Flow callbacks are outside',
  'C07': 'only the connection key: StreamIdentifier construction / operator< / operator== / serialize on fully symbolic endpoints (direction independence, equality exactly on the same unordered endpoint pair, strict weak order, IPv4 vs IPv6 keys). The stateful follower (announce once, erase at finish, limits, keep-alive, callbacks) is NOT decided',
+ 'C08': 'the real IPv4Reassembler::process (std::map of IPv4Stream, add_fragment / is_complete / allocate_pdu, IP copy assignment, RawPDU serialization) on concrete schedules of API-built packets with symbolic payload bytes and header fields: the k=2 or 3 fragments of a datagram in every order, with one duplicate, interleaved with a fragment of another datagram and with an unfragmented packet; status after every packet against a set-of-offsets model, header / cleared offset+MF / payload of the reassembled packet. Keys are concrete (six configurations), the upper-layer dispatcher is a recording stub, fragments are 8 bytes',
  'C09': 'memory safety of CCMP decryption (SessionKeys::decrypt_unicast) on protected-frame bodies of every length in the bound, symbolic header bits and PTK, AES stubbed; cipher equivalence, TKIP/WEP and handshake histories are NOT decided',
  'C12': 'PDUOption special members for every source/target representation with symbolic bytes (copy, move, self-assignment, destruction; leak and double-free checks) and six fixed tree programs over IPSecESP/UDP/RawPDU and Packet (stack, clone, copy-assign shorter/longer, move and reuse, release/re-attach/replace, Packet wrap/copy/move/release) with a forest walk after every step',
  'C13': 'finite and complete: every concrete class x every class with a flag, symbolic flag value, against std::is_base_of',
@@ -25,7 +26,6 @@ CLAIMED = {
 NA = {
  'C11': 'attempted and out of reach: RadioTap::RadioTap() (six in-place vector insertions through Utils::RadioTapWriter) alone gets no verdict from CBMC in 300 s / 12 GB, and the from-buffer parser is only decided up to 3 option bytes (C01); the inductive setter step of DESIGN 5/C11 therefore cannot be discharged on this image',
  'C10': 'not decided and not attempted beyond reading the code: the section getters and add_* editors work on std::string / std::list<record> built from a symbolic-length byte walk, and DNS(buffer) itself is only decided up to 14 bytes (C01); no claim is made',
- 'C08': 'attempted (props/C08.py, shim/c08.cpp are kept, not registered): IPv4Reassembler::process on concrete schedules of API-built fragments with symbolic payload. One packet is decided in 7 s; from the second packet on no query finished in 600 s: inside process() the header fields read through the IP* found by find_pdu<IP>() are not constant-folded by CBMC, so the std::map lookup and the std::vector<IPv4Fragment> insertion behind it are explored symbolically (DESIGN.md 0.7). No claim is made',
  'C17': 'file round-trip and BPF filter semantics are libpcap + file-system behaviour (FFI / I/O); once they are stubbed nothing libtins-authored remains except the exception filter of the capture loop',
 }
 PENDING = 'not decided by the committed machinery yet (see DESIGN.md for the planned encoding); no claim is made'
